@@ -22,6 +22,21 @@ Definition burst_mask (n : nat) (off : Z) (rows : list (srow * bool)) : list boo
 Definition panel_points {V} (off : Z) (rows : list (srow * V)) : list (Z * V) :=
   map (fun rv => ((s_center (fst rv) - off)%Z, snd rv)) rows.
 
+(* parameter panel as drawn under x-limits: of the window-limited table only the cycles whose two
+   side extrema lie on the limited time axis are kept (`last - off >= 0` and `next - off < len(times)`);
+   interp=True draws one point per such cycle at its centre, interp=False two points per cycle,
+   at its last and its next side extremum, both carrying the cycle's value (a step).
+   With no x-limits (off = 0, n = length of the recording) the restriction keeps every row. *)
+Definition in_panel_view (n : nat) (off : Z) (r : srow) : bool :=
+  (0 <=? s_last r - off)%Z && (s_next r - off <? Z.of_nat n)%Z.
+Definition panel_rows {V} (n : nat) (off : Z) (rows : list (srow * V)) : list (srow * V) :=
+  filter (fun rv => in_panel_view n off (fst rv)) rows.
+Definition panel_interp {V} (n : nat) (off : Z) (rows : list (srow * V)) : list (Z * V) :=
+  panel_points off (panel_rows n off rows).
+Definition panel_steps {V} (n : nat) (off : Z) (rows : list (srow * V)) : list (Z * V) :=
+  flat_map (fun rv => [((s_last (fst rv) - off)%Z, snd rv); ((s_next (fst rv) - off)%Z, snd rv)])
+           (panel_rows n off rows).
+
 (* the pre-repair offset (Legacy): int(times[0] * fs) truncates *)
 Definition offset_legacy (fs t0 : float) : Z := F2Z_trunc (t0 * fs)%float.
 Definition offset_repaired (fs t0 : float) : Z := F2Z_round (t0 * fs)%float.
@@ -39,3 +54,27 @@ Definition bad_burst_mask (cases : list (N * (nat * Z * list ((Z * Z) * bool)) *
    map (fun c => fst (fst c)) (filter (fun c => negb (eq_barr (run_burst_mask (snd (fst c))) (snd c))) cases)).
 Definition run_offset (x : float * list float) : list Z := map (offset_repaired (fst x)) (snd x).
 Definition bad_offset := report run_offset (list_eqb Z.eqb).
+
+(* the burst summary as a whole (plot_burst_detect_summary / Bycycle.plot): highlighted samples, the two
+   extrema marker series of the window-limited table, and one point list per parameter panel.
+   rows: ((centre, last, next), is_burst) of the window-limited table; cpts / spts: its centre and
+   side extrema; cols: one value column per panel, row-aligned with rows. *)
+Definition mk_prow (x : (Z * Z * Z) * bool) : srow * bool :=
+  let '((c, l, nx), b) := x in (Build_srow c l nx 0 0 0, b).
+Definition summ_in := (nat * Z * list ((Z * Z * Z) * bool) * list Z * list Z * bool * list (list float))%type.
+Definition summ_out := (barr * (list Z * list Z) * list (list (Z * float)))%type.
+Definition run_summary (x : summ_in) : list bool * (list Z * list Z) * list (list (Z * float)) :=
+  let '(n, off, rows, cpts, spts, interp, cols) := x in
+  let rs := map mk_prow rows in
+  (burst_mask n off rs,
+   (markers off n off cpts, markers off n off spts),
+   map (fun col => let rv := combine (map fst rs) col in
+                   if interp then panel_interp n off rv else panel_steps n off rv) cols).
+Definition zf_eqb (a b : Z * float) : bool := Z.eqb (fst a) (fst b) && fexact (snd a) (snd b).
+Definition summary_eqb (got : list bool * (list Z * list Z) * list (list (Z * float))) (want : summ_out) : bool :=
+  let '(m, (p, t), ps) := got in
+  let '(wm, (wp, wt), wps) := want in
+  eq_barr m wm && list_eqb Z.eqb p wp && list_eqb Z.eqb t wt && list_eqb (list_eqb zf_eqb) ps wps.
+Definition bad_summary (cases : list (N * summ_in * summ_out)) : N * list N :=
+  (N.of_nat (length cases),
+   map (fun c => fst (fst c)) (filter (fun c => negb (summary_eqb (run_summary (snd (fst c))) (snd c))) cases)).
